@@ -1418,7 +1418,9 @@ impl KotoVm {
                             }
                         }
                         Some(KIteratorOutput::Error(error)) => {
-                            return runtime_error!(error.to_string());
+                            // Propagate the error itself rather than its message, so that
+                            // thrown values keep their type and timeouts stay uncatchable.
+                            return Err(error);
                         }
                         None => None,
                     }
